@@ -103,7 +103,8 @@ class CSSCheckMixin:
             if end == 0 and m.start() == m.end():
                 # no CSS spec found, just immediately end of string
                 return None, None
-            if m.start() > end:
+            if m.start() > end or (end > 0 and m.group("prop")):
+                # also check between two adjacent declarations
                 split = self._css_sep.match(val, end, m.start())
                 if split is None:
                     errors = errors or []
